@@ -104,6 +104,10 @@ def norm_circular(tags):
     for t in tags:
         if t.startswith("circularAncestryDefinition:"):
             out.add("circularAncestryDefinition:*")
+        elif t.startswith("duplicateProperties:") and t.endswith("]") and "|[" in t:
+            # the list of duplicates is compared as a set (the code sorts it; the model lists it in traversal order)
+            head, lst = t.rsplit("|[", 1)
+            out.add(head + "|[" + " ".join(sorted(lst[:-1].split(" "))) + "]")
         else:
             out.add(t)
     return out
